@@ -221,6 +221,9 @@ func Run(bodies ...func() interface{}) []interface{} {
 	Races, Deadlock = nil, false
 	locs = map[string]*locState{}
 	SitesSeen = map[string]bool{}
+	for _, p := range pools {
+		p.free = nil // a pool is a cache: every execution starts with empty pools
+	}
 	mainCh = make(chan struct{})
 	for i, b := range bodies {
 		t := &thread{id: i, wake: make(chan struct{}), vc: make([]int, len(bodies))}
@@ -470,9 +473,20 @@ func (s *Map) Range(f func(k, v interface{}) bool) {
 type Pool struct {
 	New  func() interface{}
 	free []interface{}
+	reg  bool
+}
+
+var pools []*Pool
+
+func (p *Pool) register() {
+	if !p.reg {
+		p.reg = true
+		pools = append(pools, p)
+	}
 }
 
 func (p *Pool) Get() interface{} {
+	p.register()
 	if cur != nil {
 		yield()
 	}
@@ -488,6 +502,7 @@ func (p *Pool) Get() interface{} {
 }
 
 func (p *Pool) Put(x interface{}) {
+	p.register()
 	p.free = append(p.free, x)
 	if cur != nil {
 		yield()
